@@ -268,6 +268,8 @@ func (env *Env) build(st *Step) error {
 			return &utypes.UIsIdLeaf{Msg: s}
 		case "uSafeMsgLeaf":
 			return &utypes.USafeMsgLeaf{Msg: s, Safe: at(st.A, 1)}
+		case "uKeyLeaf":
+			return &utypes.UKeyLeaf{Msg: s, Key: at(st.A, 1)}
 		case "uSafeDetLeaf":
 			return &utypes.USafeDetLeaf{Msg: s, Det: at(st.A, 1)}
 		case "uProtoLeaf":
